@@ -193,18 +193,18 @@ struct reb_rotation reb_rotation_init_from_to(struct reb_vec3d from, struct reb_
         struct reb_vec3d abs_from = {.x=fabs(from.x), .y=fabs(from.y), .z=fabs(from.z)};
         if (abs_from.x <= abs_from.y && abs_from.x <= abs_from.z){
             struct reb_vec3d axis = {.x=1, .y=0, .z = 0};
-            axis = reb_vec3d_cross(from, axis);
+            axis = reb_vec3d_normalize(reb_vec3d_cross(from, axis));
             struct reb_rotation q = {.ix=axis.x, .iy=axis.y, .iz=axis.z, .r=0.0};
             return q;
         }
         if (abs_from.y <= abs_from.z){
             struct reb_vec3d axis = {.x=0, .y=1, .z = 0};
-            axis = reb_vec3d_cross(from, axis);
+            axis = reb_vec3d_normalize(reb_vec3d_cross(from, axis));
             struct reb_rotation q = {.ix=axis.x, .iy=axis.y, .iz=axis.z, .r=0.0};
             return q;
         }
         struct reb_vec3d axis = {.x=0, .y=0, .z = 1};
-        axis = reb_vec3d_cross(from, axis);
+        axis = reb_vec3d_normalize(reb_vec3d_cross(from, axis));
         struct reb_rotation q = {.ix=axis.x, .iy=axis.y, .iz=axis.z, .r=0.0};
         return q;
     }
